@@ -424,5 +424,34 @@ func runAttrs(c *core.Check) {
 				}
 			}
 		})
+	// the elements whose attributes are looked up together (meta, script, input, a, style): every ordered pair and triple of
+	// variants with different attribute subsets, so that whatever is remembered from one element meets the next
+	runFamily(c, "attr-sequences", "every ordered pair (thorough: triple) of 24 element variants with different attribute subsets (script src/charset/async, a id/name/href, input type/value/checked, meta charset/http-equiv/content/name, style amp-boilerplate)", 0, func(emit func(ctx, text string) bool) {
+		v := []string{
+			`<script src=a.js charset=utf-8></script>`, `<script async src=b.js></script>`, `<script src=c.js></script>`, `<script charset=utf-8>x()</script>`, `<script defer src=d.js id=s></script>`,
+			`<a id=top name=top>t</a>`, `<a href=#top id=back>b</a>`, `<a name=n>n</a>`, `<a id=i title=x>i</a>`, `<a href=u>u</a>`,
+			`<input type=text value="">`, `<input type=checkbox checked>`, `<input type=radio value=on name=r>`, `<input value=v>`, `<input type=text name=q value=w>`, `<input disabled type=submit>`,
+			`<meta charset=utf-8>`, `<meta http-equiv=content-type content="text/html; charset=utf-8">`, `<meta name=keywords content="a, b">`, `<meta name=viewport content="width=device-width, initial-scale=1">`, `<meta content=c itemprop=p>`, `<meta name=description content="d  e">`,
+			`<p>w</p>`, `<b title=t>x</b>`,
+		}
+		n := 2
+		if th {
+			n = 3
+		}
+		seq := core.Sequences{K: len(v), MaxLen: n}
+		for i := uint64(1); i < seq.Count(); i++ {
+			ks := seq.At(i, nil)
+			if len(ks) < 2 {
+				continue
+			}
+			var b strings.Builder
+			for _, k := range ks {
+				b.WriteString(v[k])
+			}
+			if !emit("body", b.String()) {
+				return
+			}
+		}
+	})
 	runFamily(c, "attr-catalogue", fmt.Sprintf("%d (element, attribute) pairs of the standard's attribute index x conforming values of the attribute's microsyntax (with the whitespace and case freedom the microsyntax allows) x 3 quoting styles", len(catalogue)), 0, genCatalogue)
 }
